@@ -24,7 +24,7 @@ CHECKS = {
  "C08": ("fault_enumeration", "deterministic simulation: structured fault injection at all three layers (stored bytes, compressed stream, file-layer stream re-wrapped with valid encryption), crafted hostile footers/size tables, operation histories continuing after errors; process isolation, step budget, counting allocator",
          "Every single bit flip and cut of one small archive plus seeded k<=3 structured faults and hand-built hostile streams; each operation of a history that continues after errors must return Ok/Err: no panic, no worker death (stack overflow, abort), seam-call budget, heap ceiling proportional to the input."),
  "C09": ("exploration", "deterministic simulation: exhaustive short call histories + seeded long ones vs a call-validation model; completion, read-back, repair and linear extraction of the result",
-         "All call sequences of length 1..3 (quick) / 1..4 (thorough) over an 18-symbol alphabet of valid and invalid writer calls on s0, plus seeded sequences of length 5..40 on all variants/layers; the library must refuse exactly the calls the model refuses, never accept a short source, and the finished archive must equal the model that ignored refused calls."),
+         "All call sequences of length 1..3 (quick) / 1..4 (thorough) over an 19-symbol alphabet of valid and invalid writer calls on s0, plus seeded sequences of length 5..40 on all variants/layers; the library must refuse exactly the calls the model refuses, never accept a short source, and the finished archive must equal the model that ignored refused calls."),
  "C10": ("exploration", "deterministic simulation: seeded reader operation histories on one reader vs per-file cursor model",
          "Histories of 20..200 list/hash/open/read/abandon operations with boundary-biased buffer sizes on interleaved multi-chunk/multi-block archives; every read must equal a per-file cursor over the model."),
  "C11": ("exploration", "deterministic simulation: seek/read histories on each layer reader stack vs std::io::Cursor over the layer plaintext from the independent format model; exhaustive length residues on scaled variants",
